@@ -39,13 +39,22 @@ func GenC14() *rapid.Generator[C14Case] {
 
 func CheckC14(c C14Case, rec *Rec) error {
 	build := func() (*network.Network, error) { return c.Net.Build() }
-	net, err := build()
+	first, err := build()
 	if err != nil {
 		return fmt.Errorf("building the network failed: %v", err)
 	}
-	D, err := net.MaxActivationDepth()
+	D, err := first.MaxActivationDepth()
 	if err != nil {
 		return fmt.Errorf("MaxActivationDepth on a fresh network returned error %v", err)
+	}
+	// the instance that receives the query sequence: another fresh one (its first query may be a capped one that gives up),
+	// or - every third time - the instance that has already answered the uncapped query
+	net := first
+	if hashOf(len(c.Net.Nodes), len(c.Net.Links), fmt.Sprint(c.Caps))%3 != 0 {
+		if net, err = build(); err != nil {
+			return fmt.Errorf("building the network failed: %v", err)
+		}
+		rec.Class("query sequence on an instance that was never queried before")
 	}
 	model, merr := c.Net.longestPathToOutputs()
 	acyclic := merr == nil
